@@ -284,6 +284,19 @@ Definition set_nf (s : state) (v : value) : res state :=
   let tl' := tl ++ repeat false k in
   Ok (with_fields s1 fl' tl' v).
 
+(* vm.go floatToInt: the conversion every field index goes through (saturating; NaN -> 0) *)
+Definition maxint : Z := two63 - 1.
+Definition minint : Z := - two63.
+Definition float_to_int (x : fnum) : Z :=
+  match x with
+  | FNaN => 0
+  | FInf false => maxint
+  | FInf true => minint
+  | FFin m e =>
+      let t := ftrunc m e in
+      if two63 <=? t then maxint else if t <=? - two63 then minint else t
+  end.
+
 (* ---- operations of a program on the record ----------------------------- *)
 (* a field index expression: a number, or NF-relative ($(NF+d), $(-NF+d)) *)
 Inductive idx : Type :=
@@ -292,7 +305,7 @@ Inductive idx : Type :=
 
 Inductive op : Type :=
 | ReadRecord (t : bytes)                       (* a record arrives: setLine(t, false) *)
-| GetField (i : idx)                           (* $i  (vm.go Field: int(index.num())) *)
+| GetField (i : idx)                           (* $i  (vm.go Field: floatToInt(index.num())) *)
 | SetField (i : idx) (t : bytes)               (* $i = t *)
 | GetlineField (i : idx) (t : bytes)           (* getline $i, the record read being t (vm.go GetlineField) *)
 | ModField (i : idx) (f : bytes -> res (option bytes))
@@ -343,17 +356,17 @@ Definition set_outmode (s : state) (m : mode) : state :=
 
 (* the index expression evaluated to a Go int.  NF-relative: Special NF is
    pushed first (getSpecial: ensureFields), then the float arithmetic, then
-   int(...).  The sum is exact-or-Unmod (never a guessed rounding). *)
+   floatToInt(...).  The sum is exact-or-Unmod (never a guessed rounding). *)
 Definition eval_idx (s : state) (i : idx) : res (state * Z) :=
   match i with
-  | IConst x => Ok (s, f2i64 x)
+  | IConst x => Ok (s, float_to_int x)
   | INF neg d =>
       do s1 <- ensure_fields s;
       match vnum (nf s1) with
       | FFin m e =>
           let m' := if neg then - m else m in
           let sum := fin_add m' e d 0 in
-          if representable sum then Ok (s1, f2i64 sum) else Unmod
+          if representable sum then Ok (s1, float_to_int sum) else Unmod
       | _ => Unmod
       end
   end.
@@ -369,9 +382,9 @@ Definition exec_op (s : state) (o : op) : res (state * out) :=
       do (s0, k) <- eval_idx s i;
       do s1 <- set_field s0 k t; Ok (s1, ONone)
   | GetlineField i t =>
-      (* compiler: c.expr(target.Index); GetlineField -- the opcode stores with setField(0, line) *)
-      do (s0, _) <- eval_idx s i;
-      do s1 <- set_field s0 0 t; Ok (s1, ONone)
+      (* compiler: c.expr(target.Index); GetlineField pops the index and calls setField(index, line) *)
+      do (s0, k) <- eval_idx s i;
+      do s1 <- set_field s0 k t; Ok (s1, ONone)
   | ModField i f =>
       do (s0, k) <- eval_idx s i;
       do (s1, old, _) <- get_field s0 k;
